@@ -646,6 +646,10 @@ func (c *fctx) conversion(call *ast.CallExpr, to types.Type) string {
 		if fk == tk {
 			return s
 		}
+		if fk == types.Int && c.isNonneg(arg) {
+			nt, _ := c.natTerm(arg)
+			return "(" + c.ltype(call, to) + ".ofNat " + nt + ")"
+		}
 		if fk == types.Int {
 			switch tk {
 			case types.Uint8:
@@ -735,10 +739,13 @@ func (c *fctx) callExpr(call *ast.CallExpr) string {
 			if p, ok := c.isPkgIdent(inner.X); ok && p == "encoding/binary" && inner.Sel.Name == "BigEndian" {
 				switch sel.Sel.Name {
 				case "Uint16", "Uint32", "Uint64":
-					if se, ok := call.Args[0].(*ast.SliceExpr); ok && !se.Slice3 && se.Low != nil && se.High != nil && c.isNatExpr(se.Low) && c.isNatExpr(se.High) {
+					if se, ok := call.Args[0].(*ast.SliceExpr); ok && !se.Slice3 && se.High != nil && (se.Low == nil || c.isNatExpr(se.Low)) && c.isNatExpr(se.High) {
 						if c.ltype(se, c.info.Types[se.X].Type) == "Bytes" {
 							b := c.expr(se.X)
-							lo, _ := c.natTerm(se.Low)
+							lo := "0"
+							if se.Low != nil {
+								lo, _ = c.natTerm(se.Low)
+							}
 							hi, _ := c.natTerm(se.High)
 							return c.bindM("", fmt.Sprintf("Go.u%sAt %s %s %s", strings.TrimPrefix(sel.Sel.Name, "Uint"), b, lo, hi))
 						}
